@@ -44,12 +44,16 @@ def scenario_script(sc, wd, idx, fmt):
     return lines
 
 
-def add_out_events(trace_path):
-    """after every successful write, append what a format-agnostic tokenizer reads back from the file"""
+def add_out_events(trace_path, given=None):
+    """after every successful write, append what a format-agnostic tokenizer reads back from the file; after the note that opens
+    a scenario, the records the generator wrote into its input file(s): the reference for everything that follows"""
     ev = kv.read_trace(trace_path)
     out = []
     for e in ev:
         out.append(e)
+        if given and e.get("e") == "Note" and e.get("text") in given:
+            nm, sq = given[e["text"]]
+            out.append(dict(e="Given", q=0, t=0, names=[kv.asc(x) for x in nm], seqs=[kv.asc(x) for x in sq]))
         if e.get("e") == "Ret" and e.get("op") == "write" and e.get("rc") == 0:
             names, rows = tokenize_out.tokenize(e["file"], e["fmt"])
             out.append(dict(e="Out", q=0, t=0, fmt=e["fmt"], hasnames=1, names=names, rows=rows))
@@ -110,6 +114,15 @@ def make_scenarios(rng, tier):
         seqs = [gen.case_mask(rng, x, rng.choice([0.3, 0.5, 1.0])) for x in seqs]
         scs.append(dict(id="long%d%s" % (L, kind[0]), kind=kind, seqs=seqs, names=gen.names(rng, len(seqs), "wild"), type=5, gpo=-1.0, gpe=-1.0, tgpe=-1.0,
                         threads=rng.choice([1, 4]), allfmt=True))
+    # very long record names (1000..5000 characters, made of residue letters): names are not residues
+    for j, L in enumerate([1030, 5000] if tier == "quick" else [255, 256, 257, 1022, 1023, 1024, 1030, 2047, 2050, 5000, 70000]):
+        kind = ["dna", "protein"][j % 2]
+        alpha = gen.DNA if kind == "dna" else gen.AA
+        seqs = gen.family(rng, 4, 60, alpha, sub=0.1, indel=0.03)
+        if kind == "protein":
+            seqs = [x + "LKEF" for x in seqs]
+        nm = ["".join(rng.choice("ACGTLKEFWYacgtn_") for _ in range(L)) + "_%d" % i for i in range(4)]
+        scs.append(dict(id="lname%d%s" % (L, kind[0]), kind=kind, seqs=seqs, names=nm, type=5, gpo=-1.0, gpe=-1.0, tgpe=-1.0, threads=2, allfmt=(L < 3000)))
     # groups of 64 and more sequences followed merge by merge (full arrays)
     for j, (n, L) in enumerate([(70, 40), (100, 30)] if tier == "quick" else [(66, 60), (70, 40), (100, 50), (130, 40), (200, 25), (64, 80)]):
         kind = ["protein", "dna"][j % 2]
@@ -179,7 +192,7 @@ def run(tier, seed, which="C01"):
         for k, sc in enumerate(b):
             lines += scenario_script(sc, bwd, k, fmts[(bi + k) % 3])
         tp, rc, err = kv.run_kvdrive("\n".join(lines) + "\n", bwd, "t", timeout=(240 if len(b) == 1 else 120))
-        add_out_events(tp)
+        add_out_events(tp, {sc["id"]: (sc["names"], sc["seqs"]) for sc in b if sc.get("api") != "array" and "names" in sc})
         try:
             res = kv.run_tlc("WeaveTrace", "WeaveTrace.cfg", bwd, trace=tp, timeout=1200, heap="3g")
             res.pipeline = kv.run_tlc("KalignTrace", "KalignTrace.cfg", bwd, trace=tp, timeout=1200, heap="3g", name="pipe")
